@@ -1,9 +1,10 @@
 """Table generators (see gen_tables.py).  One function per generated Lean file."""
 from __future__ import annotations
 
+import ast
 from pathlib import Path
 
-from .gen_tables import lean_str_list, literal, table  # noqa: F401
+from .gen_tables import TableError, find_assign, lean_str, lean_str_list, literal, table  # noqa: F401
 
 
 def lean_char(c: str) -> str:
